@@ -3,7 +3,8 @@
   completed operations, in order of completion (= order of critical sections), is a legal
   sequential history of one atomic register per key; per-process program order is respected;
   no operation is lost or duplicated; the system never deadlocks and every process takes a
-  bounded number of steps.
+  bounded number of steps.  `get` may retry a failed open of the shelf (label `retry p`) up
+  to `maxOpenRetry` times while holding the lock: a retry changes nothing observable.
 -/
 import SkModel.Proofs.CacheInv
 
@@ -60,6 +61,8 @@ theorem C19_order_respected_step (s s' : CacheSt) (l : CacheLbl)
     exact ⟨⟨[], by simp [stAccess], by simp⟩, Or.inr ⟨fun q hq => (by cases hq), rfl⟩⟩
   | release p op hl hp hc =>
     exact ⟨⟨[_], rfl, by simp⟩, Or.inl ⟨p, op, rfl, hl, hc, rfl⟩⟩
+  | retry p k rest hl hp ht =>
+    exact ⟨⟨[], by simp [stRetry], by simp⟩, Or.inr ⟨fun q hq => (by cases hq), rfl⟩⟩
 
 /-- 2b. at most one operation is inside a critical section, and it is the lock holder's -/
 theorem C19_order_respected (progs : Nat → List COp) (s : CacheSt)
@@ -88,13 +91,74 @@ theorem C19_nodeadlock (progs : Nat → List COp) (s : CacheSt)
     ∃ l s', cacheStep s l = some s' :=
   progress progs s (inv_reach progs s hr) p h
 
-/-- 4'. along any run process `p` takes at most `Σ_{op ∈ progs p} (|accesses op| + 2)` steps -/
+/-- 4'. along any run process `p` takes at most
+    `Σ_{op ∈ progs p} (Σ_{a ∈ accesses op} accCost a + 2)` steps, retries included, where a
+    read costs `maxOpenRetry + 1` (up to `maxOpenRetry` failed opens, then the read) and
+    any other access 1 -/
 theorem C19_run_bounded (progs : Nat → List COp) (ls : List CacheLbl) (s : CacheSt)
     (h : cacheRun (CacheSt.init progs) ls = some s) (p : Nat) :
-    (ls.filter (fun l => lblProc l == p)).length ≤ cost (progs p) := by
+    (ls.filter (fun l => lblProc l == p)).length ≤ costR (progs p) := by
+  have := muR_run ls _ s p h
+  simp [muR, CacheSt.init, pendMu] at this
+  omega
+
+/-- 4''. the steps of `p` other than retries obey the bound of the retry-free system:
+    `Σ_{op ∈ progs p} (|accesses op| + 2)` -/
+theorem C19_run_bounded_noretry (progs : Nat → List COp) (ls : List CacheLbl) (s : CacheSt)
+    (h : cacheRun (CacheSt.init progs) ls = some s) (p : Nat) :
+    (ls.filter (fun l => lblProc l == p && !isRetry l)).length ≤ cost (progs p) := by
   have := mu_run ls _ s p h
   simp [mu, CacheSt.init] at this
   omega
+
+/-- the two bounds on concrete operations: a `get` may take 13 steps instead of 3 -/
+example : cost [.get 0] = 3 ∧ costR [.get 0] = maxOpenRetry + 3 ∧
+    costR [.set 0 "a", .bulkSet [(0, "b"), (1, "c")], .unset 1] =
+      cost [.set 0 "a", .bulkSet [(0, "b"), (1, "c")], .unset 1] := by decide
+
+/-! ### retries -/
+
+/-- 5. a failed open is retried only by the lock holder, inside its critical section, and
+    changes neither the disk nor the lock nor the log -/
+theorem C19_retry_holds_lock (s s' : CacheSt) (p : Nat)
+    (h : cacheStep s (.retry p) = some s') :
+    s.lock = some p ∧ s'.lock = some p ∧ s'.disk = s.disk ∧ s'.log = s.log := by
+  cases step_of _ _ _ h with
+  | retry p k rest hl hp ht => exact ⟨hl, hl, rfl, rfl⟩
+
+/-- 5'. it happens in front of a read, at most `maxOpenRetry` times per critical
+    section, and only counts the attempt -/
+theorem C19_retry_step (s s' : CacheSt) (p : Nat)
+    (h : cacheStep s (.retry p) = some s') :
+    (∃ k rest, (s.procs p).pending = .read k :: rest) ∧
+    (s.procs p).tries < maxOpenRetry ∧
+    (s'.procs p).tries = (s.procs p).tries + 1 ∧
+    (s'.procs p).pending = (s.procs p).pending ∧ (s'.procs p).cur = (s.procs p).cur ∧
+    (s'.procs p).got = (s.procs p).got ∧ (s'.procs p).todo = (s.procs p).todo ∧
+    ∀ q, q ≠ p → s'.procs q = s.procs q := by
+  cases step_of _ _ _ h with
+  | retry p k rest hl hp ht =>
+    refine ⟨⟨k, rest, hp⟩, ht, by simp [stRetry], by simp [stRetry], by simp [stRetry],
+      by simp [stRetry], by simp [stRetry], ?_⟩
+    intro q hq
+    simp [stRetry, updP_other _ _ _ _ hq]
+
+/-- 6. from states equal up to the attempt counters, the run without its retries ends in a
+    state equal up to the attempt counters -/
+theorem C19_retry_invisible_from (s t s' : CacheSt) (ls : List CacheLbl) (he : EqvT s t)
+    (h : cacheRun s ls = some s') :
+    ∃ t', cacheRun t (ls.filter (fun l => match l with | .retry _ => false | _ => true))
+        = some t' ∧ EqvT s' t' :=
+  eqvT_run ls s s' t he h
+
+/-- 6'. removing all retries from a run gives a run with the same final disk, lock and log -/
+theorem C19_retry_invisible (progs : Nat → List COp) (ls : List CacheLbl) (s : CacheSt)
+    (h : cacheRun (CacheSt.init progs) ls = some s) :
+    ∃ s', cacheRun (CacheSt.init progs)
+        (ls.filter (fun l => match l with | .retry _ => false | _ => true)) = some s' ∧
+      s'.disk = s.disk ∧ s'.lock = s.lock ∧ s'.log = s.log := by
+  obtain ⟨t', ht', he⟩ := eqvT_run ls _ s _ (EqvT.refl _) h
+  exact ⟨t', ht', he.disk.symm, he.lock.symm, he.log.symm⟩
 
 /-! ### non-vacuity -/
 
@@ -125,6 +189,52 @@ example :
     (cacheRun (CacheSt.init C19_demo_progs) [.acquire 0, .release 0]).map C19_obs = none := by
   decide
 
+/-- retries of a reader while a writer is blocked -/
+def C19_retry_progs : Nat → List COp
+  | 0 => [.set 0 "a", .set 0 "b"]
+  | 1 => [.get 0]
+  | _ => []
+
+/-- process 1's `get 0` fails to open the shelf twice and sleeps holding the lock; process
+    0's `set 0 "b"` cannot get in (its `acquire` is refused after either retry), so the `get`
+    returns "a", the value written before it, and `set 0 "b"` is logged after it -/
+example :
+    (cacheRun (CacheSt.init C19_retry_progs)
+      [.acquire 0, .access 0, .release 0,
+       .acquire 1, .retry 1, .retry 1, .access 1, .release 1,
+       .acquire 0, .access 0, .release 0]).map C19_obs =
+    some ([(0, some "b"), (0, some "a")], none,
+      [⟨0, .set 0 "a", none⟩, ⟨1, .get 0, some "a"⟩, ⟨0, .set 0 "b", none⟩]) := by decide
+
+/-- the writer blocked: after either retry process 0's `acquire` is refused; process 1 still
+    holds the lock and nothing but `set 0 "a"` has completed -/
+example :
+    (cacheRun (CacheSt.init C19_retry_progs)
+      [.acquire 0, .access 0, .release 0,
+       .acquire 1, .retry 1, .acquire 0]).map C19_obs = none ∧
+    (cacheRun (CacheSt.init C19_retry_progs)
+      [.acquire 0, .access 0, .release 0,
+       .acquire 1, .retry 1, .retry 1, .acquire 0]).map C19_obs = none ∧
+    (cacheRun (CacheSt.init C19_retry_progs)
+      [.acquire 0, .access 0, .release 0,
+       .acquire 1, .retry 1, .retry 1]).map C19_obs =
+    some ([(0, some "a")], some 1, [⟨0, .set 0 "a", none⟩]) := by decide
+
+/-- a retry needs the lock and a read in front of it: none outside a critical section, none
+    in a `set`, none after the read; `maxOpenRetry = 10` retries are possible, an 11th is
+    not (the error propagates: the operation fails) -/
+example :
+    (cacheRun (CacheSt.init C19_retry_progs) [.retry 1]).map C19_obs = none ∧
+    (cacheRun (CacheSt.init C19_retry_progs) [.acquire 0, .retry 0]).map C19_obs = none ∧
+    (cacheRun (CacheSt.init C19_retry_progs) [.acquire 1, .retry 0]).map C19_obs = none ∧
+    (cacheRun (CacheSt.init C19_retry_progs)
+      [.acquire 1, .access 1, .retry 1]).map C19_obs = none ∧
+    ((cacheRun (CacheSt.init C19_retry_progs)
+      (.acquire 1 :: List.replicate 10 (.retry 1) ++ [.access 1, .release 1])).map C19_obs =
+      some ([], none, [⟨1, .get 0, none⟩])) ∧
+    (cacheRun (CacheSt.init C19_retry_progs)
+      (.acquire 1 :: List.replicate 11 (.retry 1))).map C19_obs = none := by decide
+
 end Sk
 
 #print axioms Sk.C19_linearizable
@@ -135,3 +245,8 @@ end Sk
 #print axioms Sk.C19_per_process_order
 #print axioms Sk.C19_nodeadlock
 #print axioms Sk.C19_run_bounded
+#print axioms Sk.C19_run_bounded_noretry
+#print axioms Sk.C19_retry_holds_lock
+#print axioms Sk.C19_retry_step
+#print axioms Sk.C19_retry_invisible_from
+#print axioms Sk.C19_retry_invisible
